@@ -10,6 +10,8 @@ L2 = ("Trusted: Coq kernel; hand-written HTTP model (Http.v) tied to /repo by ru
       "(id text form, content-type form, body chunking) is chosen by the generator, never parsed back by the harness; "
       "actix-web's routing, extractors, middleware and body streaming are mirrored by hand, not modelled internally.")
 CLAIMS = {
+ "C05": ("proof", "Coq theorems over EVERY fault plan (any number of faults, begin / reads / writes / commit, before or after effect) on the SQLite table model: C05_fault_atomic and C05_ack_implies_commit for the library entry points, C05_http_fault_atomic for every HTTP request (fault-free outcome, or 500 with the database at a transaction boundary of the fault-free run); correspondence: the real SQLite backend behind a fault-injecting storage wrapper, every storage-call index x before/after (+ double faults) for each request kind (library and HTTP) in several states, compared with the extracted fault semantics, dumps before/after, probe requests afterwards.", "DESIGN.md 6 C05", L2 + " That a dropped rusqlite connection releases its lock / rolls back is established only by the run.",
+         "Coq proof + exhaustive single-fault enumeration against the real backend"),
  "C06": ("proof", "Coq theorems: chunking irrelevant, the library receives exactly the concatenation for every size 1..MAX_SIZE (all chunk lists), the store returns what it was given with matching ids on both backends (C07/C11 instances), HTTP bodies carry it (encode); correspondence: length sweep across the SQLite page / overflow thresholds, byte classes, chunkings, versions and snapshots, both backends, re-read after reopen. The real-socket / chunked transfer-encoding part and BLOB binding are validated by the run only (partial).", "DESIGN.md 6 C06", L2,
          "Coq proof + in-process HTTP differential run over payload sizes/classes/chunkings"),
  "C14": ("proof", "Coq theorems C14_http_encodes_outcome (every HTTP history on both backends: response = default_headers (encode library-outcome), absence of headers included), per-endpoint encode lemmas for every backend and store, C14_encode_table; correspondence: every history through the real handlers and, as a twin, through the library on a second storage, compared via the table re-implemented from the property text, plus the extracted model.", "DESIGN.md 6 C14", L2,
